@@ -165,6 +165,20 @@ Section Machine.
   (* RandomChoice.__call__ as seen by the machine: one request random(size) *)
   Definition rc_draw (r : rss) (size : Z) : val * rss := rss_draw r (RRandom (rc_draw_size size)).
 
+  (* MCDataSamplingBkgGenMethod.generate_events (no pre-selection method): the
+     requests it makes on the service it is handed, in the order of the code:
+     poisson(mean) only when `poisson`, random(n_bkg) by RandomChoice, and
+     uniform(size=n_bkg) by the RA scrambler when a scrambler is set *)
+  Definition bkg_mc (poisson : bool) (n_fixed : Z) (scramble : bool) (r : rss) : Z * rss :=
+    let '(nb, r1) := if poisson
+                     then let '(v, r1) := rss_draw r (RPoisson 0) in (val_int v, r1)
+                     else (0, r) in
+    let n_bkg := bkg_n poisson n_fixed nb in
+    let '(_, r2) := rc_draw r1 (bkg_choice_size n_bkg) in
+    if scramble
+    then let '(_, r3) := rss_draw r2 (RUniform (scr_size n_bkg)) in (n_bkg, r3)
+    else (n_bkg, r2).
+
   (* ---------------- parallelize: rss_list ---------------- *)
   Fixpoint worker_seeds (k : nat) (r : rss) : list Z * rss :=
     match k with
@@ -173,6 +187,14 @@ Section Machine.
         let '(v, r1) := rss_draw r (RRandint wk_randint_lo wk_randint_hi) in
         let '(l, r2) := worker_seeds k' r1 in
         (wk_seed (val_int v) :: l, r2)
+    end.
+
+  (* k successive requests randint(0, 2^32) and their integer reads *)
+  Fixpoint randints (k : nat) (r : rss) : list Z * rss :=
+    match k with
+    | O => ([], r)
+    | S k' => let '(v, r1) := rss_draw r (RRandint 0 4294967296) in
+              let '(l, r2) := randints k' r1 in (val_int v :: l, r2)
     end.
 
   (* ncpu = 1: the given service only; otherwise the parent (advanced by the
